@@ -187,8 +187,10 @@ func genYOrder(r *Rng, tier string, n int, emit func(Case)) {
 			emit(mkCheckCase(text, Case{"order": strings.Join(p, ",")}))
 			// prefixed extension statements are accepted anywhere: before, between and after the sections
 			for k := 0; k <= len(parts); k++ {
-				withExt := append(append(append([]string{}, parts[:k]...), "ex:marker \"x\";"), parts[k:]...)
-				emit(mkCheckCase("module m { "+strings.Join(withExt, " ")+" }", Case{"order": fmt.Sprintf("ext@%d,%s", k, strings.Join(p, ","))}))
+				for _, marker := range []string{"ex:marker \"x\";", "configd:help \"x\";", "opd:help \"x\";"} {
+					withExt := append(append(append([]string{}, parts[:k]...), marker), parts[k:]...)
+					emit(mkCheckCase("module m { "+strings.Join(withExt, " ")+" }", Case{"order": fmt.Sprintf("ext@%d,%s", k, strings.Join(p, ","))}))
+				}
 			}
 			// interleaved: split the header around another section
 			text2 := "module m { namespace \"urn:x\"; " + strings.Join(parts[1:], " ") + " prefix p; }"
